@@ -43,6 +43,10 @@ def run(ctx) -> None:
 
     ctx.reuse("C06.step-guard", c02.no_swallow)
     ctx.guard("C06.partition", partition_volume)
+    from .common import memo_rule
+
+    # the step list of one call is that call's own: a cached partition_volume hands one list to every caller
+    ctx.guard("C06.partition", memo_rule, "C06.partition/no-cache", ("worklists/utils.py", "worklists/base.py", "evotools/worklist.py", "fluenttools/worklist.py"))
     # a split transfer is not refused for being too large: the record validator takes every volume up to the format's limit
     from . import c09 as _c09
 
